@@ -319,8 +319,10 @@ def main(argv=None):
         "violations": len(violations) + (1 if (obligations_broken and not violations) else 0),
     }
     err = validate_evidence(ev)
-    os.makedirs(os.path.join(VERIF, "evidence"), exist_ok=True)
-    with open(os.path.join(VERIF, "evidence", pid + ".json"), "w") as f:
+    # evidence/ holds records of runs against /repo only; runs against another tree (tools/mutate.py, ROCKIT_REPO) go to work/
+    evdir = os.path.join(VERIF, "evidence") if os.path.realpath(REPO) == "/repo" else os.path.join(VERIF, "work", "evidence_other_tree")
+    os.makedirs(evdir, exist_ok=True)
+    with open(os.path.join(evdir, pid + ".json"), "w") as f:
         json.dump(ev, f, indent=1, default=str)
     if err:
         print("evidence does not validate: " + err)
